@@ -126,6 +126,16 @@ func (s *scopedWalker) walk() error {
 	if strings.HasPrefix(rootname, "/") {
 		rootname = "." + rootname
 	}
+	if !strings.HasSuffix(rootname, "/") {
+		// fs.WalkDir follows a symbolic link that is the root of the walk. A
+		// link named without a trailing slash is an entry like any other.
+		if li, err := fs.Lstat(s.source.FS(), filepath.Clean(rootname)); err == nil && li.Mode()&fs.ModeSymlink != 0 {
+			if err := s.walkFn(filepath.Clean(rootname), fs.FileInfoToDirEntry(li), nil); err != nil && err != filepath.SkipDir {
+				return err
+			}
+			return nil
+		}
+	}
 	if err := fs.WalkDir(s.source.FS(), filepath.Clean(rootname), s.walkFn); err != nil {
 		return err
 	}
